@@ -65,7 +65,8 @@ UpdNew(m, e, tr) == [m EXCEPT !.rows = <<[t |-> e.s.tc, y |-> e.s.yc]>>, !.y0 = 
 UpdIntegrateCall(m, e, tr) ==
     [m EXCEPT !.frames = Append(@, [target |-> e.target, finite |-> e.finite, dir |-> e.dir, depth |-> e.depth,
                                     c0 |-> e.s.counter, nfev0 |-> e.s.nfev, ncb |-> e.ncb, nevents |-> e.nevents,
-                                    atTarget |-> e.atTarget, steps |-> 0, calls |-> 0, dtmCall |-> -1, terminated |-> FALSE, term |-> e.term]),
+                                    atTarget |-> e.atTarget, steps |-> 0, calls |-> 0, dtmCall |-> -1, terminated |-> FALSE, term |-> e.term,
+                                    lastHm |-> -1, lastFull |-> FALSE, cbAssigned |-> FALSE]),
               !.opDir = IF e.depth = 1 THEN e.dir ELSE @,
               !.opNoop = IF e.depth = 1 THEN e.atTarget ELSE @,     \* a call made at its target changes nothing (C13): not even the status
               !.cbDue = IF e.depth = 1 THEN FALSE ELSE @,
@@ -86,7 +87,8 @@ ChkIntegCall(m, e, tr) ==
 UpdIntegCall(m, e, tr) ==
     [m EXCEPT !.call = [t |-> e.t, h |-> e.h, hm |-> e.hm, y |-> e.y, attempts |-> << >>, lastDT |-> 0, lastDTm |-> 0,
                         redo |-> "na", newton |-> "na", newtonFailed |-> FALSE, nret |-> 0],
-              !.frames = [@ EXCEPT ![Len(@)].calls = @ + 1, ![Len(@)].dtmCall = IF Top(m).calls = 0 THEN e.s.dtm ELSE @],
+              !.frames = [@ EXCEPT ![Len(@)].calls = @ + 1, ![Len(@)].dtmCall = IF Top(m).calls = 0 THEN e.s.dtm ELSE @,
+                                   ![Len(@)].lastHm = e.hm, ![Len(@)].lastFull = (e.h = e.s.dt)],
               !.cbDue = IF Top(m).depth = 1 THEN FALSE ELSE @,
               !.cbSeen = IF Top(m).depth = 1 THEN << >> ELSE @,
               !.cbDtPending = IF Top(m).depth = 1 THEN FALSE ELSE @]
@@ -211,7 +213,7 @@ ChkDtAssign(m, e, tr) ==
           THEN {"C04.DtKeptBetweenSteps", "C13.DtKeptBetweenSteps"} ELSE {})
 UpdDtAssign(m, e, tr) ==
     IF m.cbIn >= 0 /\ HasFrame(m)
-    THEN [m EXCEPT !.cbDtm = e.dtm, !.cbDtPending = TRUE, !.frames = [@ EXCEPT ![Len(@)].dtmCall = e.dtm]]
+    THEN [m EXCEPT !.cbDtm = e.dtm, !.cbDtPending = TRUE, !.frames = [@ EXCEPT ![Len(@)].dtmCall = e.dtm, ![Len(@)].cbAssigned = TRUE]]
     ELSE m
 
 (* integrate returns / raises *)
@@ -226,6 +228,11 @@ ChkIntegrateRet(m, e, tr) ==
     \cup (IF f.depth = 1 /\ ~f.atTarget /\ ~f.terminated /\ e.s.status \notin {"done", "event"} THEN {"C03.StatusReportsSuccess"} ELSE {})
     \cup (IF f.depth = 1 /\ f.ncb > 0 /\ m.cbDue /\ m.cbSeen # [k \in 1..f.ncb |-> k - 1] THEN {"C20.CallbacksOncePerStepInOrder"} ELSE {})
     \cup (IF Some(m.ret) THEN {"C05.AcceptedStepDropped"} ELSE {})
+    \* a fixed-step run that was stopped by a terminal event found in a full (not clamped) step goes on with the requested step: the shorter
+    \* steps taken to land on the event are not carried over (no user intervention: no callback assigned a step during the call)
+    \cup (IF f.depth = 1 /\ f.terminated /\ m.fam \in {"fixed", "split", "fixedimp"} /\ f.lastFull /\ ~f.cbAssigned /\ f.lastHm # -1
+             /\ e.s.dtm # f.lastHm
+          THEN {"C04.RequestedStepRestoredAfterLandingOnAnEvent"} ELSE {})
     \cup (IF Some(m.rolled) /\ f.depth = 1 THEN {"C07.RolledBackRowNeverRestored", "C03.RolledBackRowNeverRestored"} ELSE {})
 UpdIntegrateRet(m, e, tr) ==
     IF ~HasFrame(m) THEN m ELSE
